@@ -97,6 +97,11 @@ let handle (line : Stdlib.String.t) : Stdlib.String.t =
       let value = Irconv.uexpr_of (Irconv.parse_sexp f.(2)) in
       let p = Irconv.pat_of (Irconv.parse_sexp f.(3)) in
       Irconv.toks_to_string (expand_top join_ok value.u_toks p)
+  | "binders" ->
+      (* binders <join_ok> <value> <tree> -> identifiers the model's expansion binds, comma separated *)
+      let value = Irconv.uexpr_of (Irconv.parse_sexp f.(2)) in
+      let p = Irconv.pat_of (Irconv.parse_sexp f.(3)) in
+      Stdlib.String.concat "," (List.map ocaml_string (stmt_binders (expand (f.(1) = "1") p (VRoot value.u_toks))))
   | c -> failwith ("unknown command " ^ c)
 
 let () =
